@@ -71,7 +71,7 @@ def gen_cases(chk):
 def run(chk):
     res = vlib.prove(chk, C01.UNITS + ['JitLogic', 'JitEnc', 'JitMulDiv', 'JitMisc', 'ClMisc'],
                      C01.MODELS + ['theories/X86Seq.vo', 'gen/JitMisc.vo', 'gen/ClMisc.vo', 'gen/JitLogic.vo'], 'C08',
-                     C01.PROOFS + ['theories/InterpCalls.v', 'theories/JitMiscProofs.v', 'theories/ClMiscProofs.v'])
+                     C01.PROOFS + ['theories/InterpCalls.v', 'theories/JitMiscProofs.v', 'theories/ClMiscProofs.v', 'theories/ClStep.v', 'theories/JitStep.v'])
     found = False
     if res['model_ok']:
         binary = vlib.harness_build('debug')
